@@ -24,7 +24,16 @@ def _hook(event, args):
                 (isinstance(flags, int) and flags & WRITE_FLAGS):
             _events.append(('open-write', _s(path), mode, flags))
     elif event in NAMES:
-        _events.append((event,) + tuple(_s(a) for a in args[:2]))
+        a0 = args[0] if args else None
+        if isinstance(a0, int) and not isinstance(a0, bool):
+            # descriptor-based call (os.utime(fd), os.chmod(fd), ...): name the file
+            try:
+                a0 = os.readlink('/proc/self/fd/%d' % a0)
+            except OSError:
+                pass
+            _events.append((event, a0) + tuple(_s(a) for a in args[1:2]))
+        else:
+            _events.append((event,) + tuple(_s(a) for a in args[:2]))
 
 
 def _s(p):
